@@ -18,7 +18,13 @@ C2S: seeded random programs from a larger grammar (nesting depth 3, longer block
      schedules are run in both forms; the recorded observations are validated by TLC against
      Trace_CoroLang.
 
-Binding demonstrated during development (scratch worktree, see notes/futures.md).
+Binding demonstrated during development (scratch worktree, details in notes/futures.md), each
+reported by the S2C replay: the decorator's first-iteration path dropping the returned value;
+`convert_yielded` no longer accepting dicts; `ctx_run` replaced by `_fake_ctx_run` (caller context
+leak); the moment continuation scheduled without `ctx_run` (a value set after `moment` is lost
+after the next await).  The trace validation is exercised on every run by
+futures_gen.binding_demo.  On the pinned commit the check found F23 (a decorated coroutine awaiting
+a cancelled future never settles) and re-found F01 through `yield [..]`; both are fixed in /repo.
 """
 import random
 import time
@@ -189,22 +195,25 @@ def _trace_sig(t, bad, l):
 MC_THOROUGH = {"MaxBody": 2, "TopOps": '{"eff", "await1", "moment", "ret", "setctx"}'}
 
 ALL_HF = '{"none", "eff", "await2", "ret", "raise"}'
+ALL_OUT = '{"ok", "exc", "cancel"}'
 GEN_QUICK = [
-    {"TopOps": '{"eff", "await1", "ret"}', "MaxTop": 2, "MaxBody": 1,
+    {"TopOps": '{"eff", "ret"}', "MaxTop": 2, "MaxBody": 1, "Outcomes": ALL_OUT,
      "HOps": '{"none", "eff", "await2", "raise"}', "FOps": '{"none", "eff", "await2", "ret"}'},
 ]
-GEN_CTX = {"TopOps": '{"moment", "setctx", "rdctx", "await1"}', "MaxTop": 4, "MaxTry": 0, "MaxBody": 1,
+GEN_CTX = {"TopOps": '{"moment", "setctx", "rdctx", "await1"}', "MaxTop": 4, "Outcomes": '{"ok", "exc", "cancel"}', "MaxTry": 0, "MaxBody": 1,
            "BodyOps": '{"eff"}', "HOps": '{"none"}', "FOps": '{"eff"}'}
 GEN_THOROUGH = [
     # every clause content, with cancellation of the awaited futures
     {"TopOps": '{"eff", "await1", "ret"}', "MaxTop": 2, "MaxBody": 1, "HOps": ALL_HF, "FOps": ALL_HF,
-     "Outcomes": '{"ok", "exc", "cancel"}'},
+     "Outcomes": ALL_OUT},
     # try bodies of two statements
     {"TopOps": "{}", "MaxTop": 1, "MaxBody": 2, "HOps": ALL_HF, "FOps": ALL_HF,
      "BodyOps": '{"eff", "await1", "await2", "list", "dict", "sub2", "sub3", "ret", "raise"}'},
+    {"TopOps": "{}", "MaxTop": 1, "MaxBody": 2, "HOps": ALL_HF, "FOps": ALL_HF, "Outcomes": ALL_OUT,
+     "BodyOps": '{"eff", "await1", "list", "sub2", "ret", "raise"}'},
     # rich top level around a try statement
     {"TopOps": '{"eff", "await1", "await2", "list", "moment", "sub2", "ret", "raise", "setctx"}', "MaxTop": 2,
-     "MaxBody": 1, "HOps": '{"none", "eff", "raise"}', "FOps": '{"none", "eff", "ret"}'},
+     "MaxBody": 1, "HOps": '{"none", "eff", "raise"}', "FOps": '{"none", "eff", "ret"}', "Outcomes": ALL_OUT},
 ]
 
 
@@ -229,24 +238,16 @@ def run(ctx):
                                                                   '{"eff", "await1", "list", "sub2", "sub3", "raise", "ret"}'),
                                               "HOps": ctx.pick('{"none", "eff", "raise"}', '{"none", "eff", "await2", "ret", "raise"}'),
                                               "FOps": ctx.pick('{"none", "eff", "ret"}', '{"none", "eff", "await2", "ret", "raise"}'),
-                                              "Outcomes": ctx.pick('{"ok", "exc"}', '{"ok", "exc", "cancel"}')},
+                                              "Outcomes": ALL_OUT},
                                    timeout=ctx.pick(600, 1800))
     nested = [ep for ep in nested if any(s["op"] == "try" and s["B"] and s["B"][0]["op"] == "try" for s in ep[0]["cfg"]["prog"])]
     ctx.replay(nested, replayer, label="s2c-nest")
-    # cancellation of awaited futures (separate so that its findings are matched precisely)
-    if ctx.quick:
-        canc = futures_gen.gen_paths(ctx, "futures", "Gen_CoroLang", "Gen_CoroLang.cfg",
-                                     overrides={"TopOps": '{"eff"}', "MaxTop": 1, "MaxBody": 1,
-                                                "BodyOps": '{"await1", "list", "sub2"}',
-                                                "Outcomes": '{"ok", "cancel"}'},
-                                     timeout=600)
-        ctx.replay(canc, replayer, label="s2c-cancel")
     ctx.cov["exhaustive"] = True
-    ctx._phase("nested+cancel", t0); t0 = time.time()
+    ctx._phase("nested", t0); t0 = time.time()
     SUBS = paths[0][0]["cfg"]["subs"]
     # 3. code -> spec
     n = ctx.pick(300, 10000)
-    jobs = [(i + 1, ctx.seed * 1000003 + i, SUBS, i % 8 == 0) for i in range(n)]
+    jobs = [(i + 1, ctx.seed * 1000003 + i, SUBS, i % 2 == 0) for i in range(n)]
     traces = framework.pool_map(random_trace, jobs)
     ctx._phase("record", t0); t0 = time.time()
     leaks = [t for t in traces if t["caller_ctx"] != 1]
@@ -259,7 +260,9 @@ def run(ctx):
 
     def corrupt(ev):
         ev["obs"]["dec"]["log"] = ev["obs"]["dec"]["log"] + [{"t": "eff", "v": [77], "e": ""}]
-    futures_gen.binding_demo(ctx, "futures", "Trace_CoroLang", "Trace_CoroLang.cfg", traces, corrupt)
+    futures_gen.binding_demo(ctx, "futures", "Trace_CoroLang", "Trace_CoroLang.cfg",
+                             [t for t in traces if t["ev"] and t["ev"][-1]["obs"]["nat"]["out"]["s"] != "pending"],
+                             corrupt, "start")
     ctx._phase("validate", t0)
     ctx.cov["rule"] = ("paths: every program of the bounded grammar (top-level atoms and try/except/finally statements "
                        "with awaits, lists, dicts, moment, sub-coroutines, return, raise, context variable in every "
